@@ -3,6 +3,7 @@
 // Answer per op:  <result> <vec0> <vec1> <vec2>   with vec = size/cap:elems|reverse-elems  or ~
 #include "common.hpp"
 
+#include <iterator>
 #include <memory>
 
 #include <nitro/lang/fixed_vector.hpp>
@@ -29,6 +30,62 @@ static inline void maybe_throw()
     }
     --g_countdown;
 }
+
+// A single-pass input range over a vector (what an istream_iterator is): all copies of the iterator share one read
+// position, so walking a copy to count the elements consumes them.
+template <typename T>
+struct SinglePass
+{
+    using iterator_category = std::input_iterator_tag;
+    using value_type = T;
+    using difference_type = std::ptrdiff_t;
+    using pointer = const T*;
+    using reference = const T&;
+    const std::vector<T>* src = nullptr;
+    std::shared_ptr<std::size_t> pos;
+    bool at_end() const
+    {
+        return !src || *pos >= src->size();
+    }
+    reference operator*() const
+    {
+        return (*src)[*pos];
+    }
+    pointer operator->() const
+    {
+        return &(*src)[*pos];
+    }
+    SinglePass& operator++()
+    {
+        ++*pos;
+        return *this;
+    }
+    SinglePass operator++(int)
+    {
+        SinglePass c = *this;
+        ++*pos;
+        return c;
+    }
+    friend bool operator==(const SinglePass& a, const SinglePass& b)
+    {
+        return a.at_end() == b.at_end() && (a.at_end() || *a.pos == *b.pos);
+    }
+    friend bool operator!=(const SinglePass& a, const SinglePass& b)
+    {
+        return !(a == b);
+    }
+    static SinglePass begin(const std::vector<T>& v)
+    {
+        SinglePass i;
+        i.src = &v;
+        i.pos = std::make_shared<std::size_t>(0);
+        return i;
+    }
+    static SinglePass end()
+    {
+        return SinglePass{};
+    }
+};
 
 template <bool Copyable>
 struct ElemT
@@ -548,7 +605,10 @@ struct Runner<Elem> : Pool<Elem>
             if (pos > v.capacity())
                 return "raised";
             return guarded(fuel, [&] {
-                v.insert(v.begin() + pos, src.begin(), src.end());
+                if ((src.size() + pos) % 2 == 1)
+                    v.insert(v.begin() + pos, SinglePass<Elem>::begin(src), SinglePass<Elem>::end());
+                else
+                    v.insert(v.begin() + pos, src.begin(), src.end());
                 return std::string("ok");
             });
         }
@@ -556,7 +616,11 @@ struct Runner<Elem> : Pool<Elem>
         {
             auto src = mk(vals(t[2]));
             return guarded(fuel, [&] {
-                v.push_back(src.begin(), src.end());
+                // the range is delimited by random-access iterators, or by single-pass input iterators
+                if ((src.size() + v.size()) % 2 == 1)
+                    v.push_back(SinglePass<Elem>::begin(src), SinglePass<Elem>::end());
+                else
+                    v.push_back(src.begin(), src.end());
                 return std::string("ok");
             });
         }
